@@ -225,3 +225,21 @@ Fixpoint perms_of (fuel : nat) (l : list Z) : list (list Z) :=
            end
   end.
 Definition py_permutations (n : Z) : list (list Z) := perms_of (Z.to_nat n) (zrange 0 n 1).
+
+(* two-dimensional float arrays as lists of rows *)
+Definition py_mat_ones (r c : Z) : res (list (list Q)) :=
+  if (r <? 0) || (c <? 0) then Raise ValueError else Ok (repeat (repeat 1%Q (Z.to_nat c)) (Z.to_nat r)).
+Definition py_mat_identity (n : Z) : res (list (list Q)) :=
+  if n <? 0 then Raise ValueError
+  else Ok (map (fun i => map (fun j => if Nat.eqb i j then 1%Q else 0%Q) (seq 0 (Z.to_nat n))) (seq 0 (Z.to_nat n))).
+Definition mat_scale (s : Q) (m : list (list Q)) : list (list Q) := map (map (fun x => s * x)%Q) m.
+Definition mat_shape_eq (a b : list (list Q)) : bool :=
+  Nat.eqb (List.length a) (List.length b) && forallb (fun p => Nat.eqb (List.length (fst p)) (List.length (snd p))) (combine a b).
+(* a - b for equal shapes (broadcasting between matrices is not modelled: other shapes raise) *)
+Definition py_mat_sub (a b : list (list Q)) : res (list (list Q)) :=
+  if mat_shape_eq a b then Ok (map (fun p => arr_zip Qminus (fst p) (snd p)) (combine a b)) else Raise ValueError.
+(* v @ m: entry j = sum_i v[i] m[i][j]; the length of v must be the number of rows *)
+Definition py_vecmat (v : list Q) (m : list (list Q)) : res (list Q) :=
+  if Nat.eqb (List.length v) (List.length m)
+  then Ok (map (fun j => Qsum (map (fun p => (fst p * nth j (snd p) 0)%Q) (combine v m))) (seq 0 (match m with [] => 0%nat | r :: _ => List.length r end)))
+  else Raise ValueError.
